@@ -908,6 +908,7 @@ def generate(rng, tier):
     gen_save_edges(rng, big, add)
     gen_coinciding(rng, big, add, grids)
     gen_locate_traces(rng, big, add)
+    gen_double_range(rng, big, add)
     gen_process_histories(rng, big, add, cs)
     return cs
 
@@ -1378,6 +1379,54 @@ def gen_long_sessions(rng, big, add):
                     longs = [gx[j] + 0.25, gx[j] + 0.75, e]
                     pts = [((u, rng.choice([-0.5, 2.0, 4.5])) if not swap else (rng.choice([-0.5, 2.0, 4.5]), u)) for u in longs]
                     add(f"{h} {len(pts)} " + " ".join(f"{hx(x)} {hx(y)}" for x, y in pts), "long-table-history", nt=True)
+
+
+def gen_double_range(rng, big, add):
+    """meaningful requests whose function values / abscissae / parameters sit anywhere in the exponent range of a double: every value scaled by 2^k, k over
+    subnormal (2^-1074..), tiny normal (around 2^-537, where the product of two values underflows to +-0), ordinary, huge (around 2^512, where it overflows)
+    and the top of the range; root brackets with end values of opposite sign in both orders.  A guard written with a product / difference / square of its
+    arguments instead of comparisons refuses (or accepts) such a request."""
+    ks = [-1074, -1073, -1070, -1050, -1023, -1022, -1021, -1000, -900, -800, -700, -600, -560, -545, -540, -539, -538, -537, -536, -535, -530, -520, -500, -400, -300, -100, -1, 0, 1, 100,
+          300, 500, 510, 511, 512, 513, 520, 540, 600, 800, 1000, 1020, 1022]
+    if big: ks = sorted(set(ks + list(range(-1074, 1023, 7))))
+    for k in ks:
+        s_ = math.ldexp(1.0, k)
+        # Find_Root: f = +-s (x - 1), +-s tanh(x - 1), +-s (x^3 - 8): end values of opposite sign and magnitude ~ s (and s times 1e-3 .. 1e2)
+        for sg in (1.0, -1.0):
+            c_ = hx(sg * s_)
+            for (e, xl, xr) in ((f"* c {c_} - x c {hx(1.0)}", 0.0, 3.0), (f"* c {c_} - x c {hx(1.0)}", 3.0, 0.0), (f"* c {c_} - x c {hx(1.0)}", 0.999, 101.0),
+                                (f"* c {c_} tanh - x c {hx(1.0)}", -2.0, 1.5), (f"* c {c_} - pow x {hx(3.0)} c {hx(8.0)}", 0.0, 5.0)):
+                if k <= -1070 and "tanh" not in e and xl != 0.999: pass
+                add(f"find_root {e} {hx(xl)} {hx(xr)}", "double-range", "find-root-scaled", nt=True)
+        if k >= -1022:
+            # the two end values far apart in magnitude: f = s (x - 1) on [1 - 2^-40, 1 + 2^40]
+            add(f"find_root * c {hx(s_)} - x c {hx(1.0)} {hx(1.0 - 2.0 ** -40)} {hx(1.0 + 2.0 ** 40)}", "double-range", "find-root-scaled", nt=True)
+        # interpolation tables with abscissae s * (1, 1.5, 1.75, 3): constructor, Locate, Interpolate, Integrate, Local_Minimum inside and at the ends
+        if k <= 1020:
+            g = [s_ * v for v in (1.0, 1.5, 1.75, 3.0)]
+            if valid_table(g):
+                add(f"interp {flist(g)} {len(g)}", "double-range", nt=True)
+                for x in (g[0], 1.25 * s_, g[2], 2.5 * s_, g[-1]):
+                    add(f"locate {flist(g)} {hx(x)}", "double-range", nt=True); add(f"interpolate {flist(g)} {hx(x)}", "double-range", nt=True)
+                add(f"interp_integrate {flist(g)} {hx(g[0])} {hx(g[-1])}", "double-range", nt=True)
+                add(f"local_min {flist(g)} {hx(1.25 * s_)} {hx(2.5 * s_)}", "double-range", nt=True)
+                add(f"locate_trace {flist(g)} {flist([1.25 * s_, 1.6 * s_, 2.5 * s_, g[0]])}", "double-range", nt=True)
+                add(f"icalls {flist(g)} {len(g)} {hx(-1.0)} {hx(s_)} 3 ev {hx(1.25 * s_)} int {hx(g[0])} {hx(g[-1])} glob", "double-range", nt=True)
+            add(f"closest {flist([-s_, 0.0, s_, 2.0 * s_])} {hx(1.4 * s_)}", "double-range", nt=True)
+        # positive parameters and probabilities anywhere in the range
+        add(f"gammaln {hx(s_)}", "double-range", nt=True)
+        for op in ("pdf_exponential", "cdf_exponential", "pdf_maxwell", "cdf_maxwell"): add(f"{op} {hx(s_)}", "double-range", nt=True)
+        if k <= 6: add(f"pmf_poisson {hx(s_)} {rng.choice([0, 1, 3])}", "double-range", nt=True)
+        if k <= 0:
+            add(f"pmf_binomial 5 {hx(s_)} 2", "double-range", nt=True); add(f"inv_cdf_poisson 0 {hx(s_)}", "double-range", nt=True)
+        # Inverse of s (1x1) and of diag(s, 1/s) (determinant exactly 1)
+        add(f"inverse 1 1 {hx(s_)}", "double-range", nt=True)
+        if -1000 <= k <= 1000: add(f"inverse 2 2 {hx(s_)} {hx(0.0)} {hx(0.0)} {hx(1.0 / s_)}", "double-range", nt=True)
+        # integration limits anywhere in the range (the request made by the call-back is meaningful)
+        if -1000 <= k <= 1000:
+            # (Tanh-Sinh with limits of 2^510 and more ends in an uncaught boost::math::evaluation_error - reported to the lead, not generated here)
+            m = rng.choice([m_ for m_ in M1D if not (m_ == "Tanh-Sinh" and k > 500)])
+            add(f"nested int1 {m} {hx(s_)} {hx(2.0 * s_)} 1 factorial 5", "double-range", nt=True)
 
 
 def gen_locate_traces(rng, big, add):
